@@ -35,7 +35,7 @@ func init() {
 	})
 	prop(&PropertySpec{
 		ID: "C17", Level: "other",
-		Rules: []string{"R17.1", "R17.2", "R17.3", "R17.4", "R03.5"},
+		Rules: []string{"R17.1", "R17.2", "R17.3", "R17.4", "R03.5", "R04.3"},
 		Explanation: "Decides failure isolation structurally: R17.1 on the fan-out's error edge the error is sent to the current iteration's key, that same key is removed and control returns to the range (no return/break/panic); R17.2 a Put error is sent on the reply channel, the published message stays in place and the fan-out is still reached; " +
 			"R17.3 every Replayer interface call in sse runs under a deferred recover that disables the shared replayer variable and marks the error as a panic, and every use in the loop is under a non-nil test of a fresh load of that variable; R17.4 the panic marker is never forwarded to Publish and leads to registration, not to an error.",
 		NotDecided: "delivery to the healthy subscribers over all schedules as such; behaviour of user code that panics inside Send/Flush.",
@@ -60,7 +60,7 @@ func init() {
 	register(&Rule{ID: "R17.1", Title: "failing subscriber: error to its channel, remove it, continue", Floor: 2, Run: r17_1})
 	register(&Rule{ID: "R17.2", Title: "Put error forwarded to Publish, fan-out still reached", Floor: 2, Run: r17_2})
 	register(&Rule{ID: "R17.3", Title: "replayer calls run under a disabling recover; nil-guarded uses", Floor: 4, Run: r17_3})
-	register(&Rule{ID: "R17.4", Title: "panic marker is not forwarded; leads to registration", Floor: 2, Run: r17_4})
+	register(&Rule{ID: "R17.4", Title: "panic marker is not forwarded to the publisher", Floor: 1, Run: r17_4})
 }
 
 type loopParts struct {
@@ -368,9 +368,11 @@ func r03_4(c *Ctx) {
 	for _, send := range lp.sends {
 		sv := send.Value()
 		var nilE *cfgEdge
-		for _, ifi := range ifsIn(fn) {
-			if s, ok := nilEdge(ifi, func(v ssa.Value) bool { return v == ssa.Value(sv) }); ok {
-				nilE = &cfgEdge{ifi.Block(), s}
+		for _, f := range regionFuncs(fn) {
+			for _, ifi := range ifsIn(f) {
+				if s, ok := nilEdge(ifi, func(v ssa.Value) bool { return v == ssa.Value(sv) }); ok {
+					nilE = &cfgEdge{ifi.Block(), s}
+				}
 			}
 		}
 		name := fnLabel(fn) + ":send-then-flush"
@@ -654,8 +656,14 @@ func r04_2(c *Ctx) {
 	send := lp.sends[0]
 	// Send's argument: load of <msgcell>.messageWithTopics.message
 	arg := send.Common().Args[0]
-	base, ok := isFieldLoad(arg, "messageWithTopics", "message")
-	argOK := ok && cellHoldsOnly(rootAddr(base), msg)
+	argOK := false
+	for _, sv := range sources(arg) {
+		base, ok := isFieldLoad(sv, "messageWithTopics", "message")
+		argOK = ok && cellHoldsOnly(rootAddr(base), msg)
+		if !argOK {
+			break
+		}
+	}
 	c.check(argOK, fnLabel(fn)+":send-arg", P.ipos(send), "Send receives the message field of the cell holding the published message", "Send's argument is not loaded from the cell that holds the published message (a copy captured before Put would carry no ID)")
 	// the store of Put's result into that field
 	var st *ssa.Store
@@ -665,7 +673,7 @@ func r04_2(c *Ctx) {
 			return
 		}
 		if b, ok := isFieldSel(s.Addr, "messageWithTopics", "message"); ok && cellHoldsOnly(rootAddr(b), msg) {
-			if e, ok := s.Val.(*ssa.Extract); ok && e.Index == 0 && e.Tuple == ssa.Value(lp.tryPut) {
+			if extractOfCallPred(lp.tryPut, 0)(s.Val) {
 				st = s
 			}
 		}
@@ -676,18 +684,15 @@ func r04_2(c *Ctx) {
 		return
 	}
 	putM := st.Val
-	putErr := func(v ssa.Value) bool {
-		e, ok := v.(*ssa.Extract)
-		return ok && e.Index == 1 && e.Tuple == ssa.Value(lp.tryPut)
-	}
+	putErr := extractOfCallPred(lp.tryPut, 1)
+	isPutM := extractOfCallPred(lp.tryPut, 0)
 	// every path from tryPut to the fan-out with (m != nil) and (err == nil) passes the store
 	blocked := map[cfgEdge]bool{}
 	for _, ifi := range ifsIn(fn) {
-		if s, ok := nilEdge(ifi, func(v ssa.Value) bool { return v == putM }); ok {
-			blocked[cfgEdge{ifi.Block(), s}] = true
-		}
-		if s, ok := nilEdge(ifi, putErr); ok {
-			blocked[cfgEdge{ifi.Block(), 1 - s}] = true // err != nil edge (genuine error or panic)
+		for e := 0; e < 2; e++ {
+			if edgeEstablishes(ifi, e, factNil(isPutM, true)) || edgeEstablishes(ifi, e, factNil(putErr, false)) {
+				blocked[cfgEdge{ifi.Block(), e}] = true
+			}
 		}
 	}
 	target := ssa.Instruction(lp.rng)
@@ -698,7 +703,8 @@ func r04_2(c *Ctx) {
 	c.check(!skip, name, P.ipos(st), "when Put succeeds with a non-nil message, that message replaces the one that is fanned out",
 		"a path with a successful Put (err == nil, m != nil) reaches the fan-out without storing m: the event is delivered live without the ID under which it was buffered")
 	// and the store is itself guarded by m != nil (never fan out nil)
-	c.check(guardedByNil(fn, st.Block(), func(v ssa.Value) bool { return v == putM }, false), fnLabel(fn)+":store-guard", P.ipos(st),
+	_ = putM
+	c.check(guardedByNil(fn, st.Block(), isPutM, false), fnLabel(fn)+":store-guard", P.ipos(st),
 		"the replacement happens only for a non-nil message", "Put's result replaces the message without a nil check: a replayer returning (nil, nil) makes Joe send nil")
 }
 
@@ -796,15 +802,7 @@ func r04_3(c *Ctx) {
 		}
 	}
 	// genuine-error edge set: err != nil && !isPanic. Find the If on isPanic reached only via err != nil.
-	var genuine []cfgEdge
-	for _, ifi := range ifsIn(fn) {
-		if s, ok := boolEdge(ifi, isPanicOK); ok {
-			// false edge of isPanic, provided the If itself is dominated by err != nil
-			if guardedByNil(fn, ifi.Block(), errVals, false) {
-				genuine = append(genuine, cfgEdge{ifi.Block(), 1 - s})
-			}
-		}
-	}
+	genuine := edgesWhereAll(fn, factNil(errVals, false), factBool(isPanicOK, false))
 	if len(genuine) == 0 {
 		c.undecided(name+":error-split", P.ipos(lp.tryReplay), "could not locate the `err != nil && !isPanic` split after Replay")
 		return
@@ -1297,8 +1295,20 @@ func r17_1(c *Ctx) {
 	n := 0
 	for _, ifi := range ifsIn(fn) {
 		s, ok := nilEdge(ifi, func(v ssa.Value) bool {
-			if _, isPhi := v.(*ssa.Phi); isPhi {
-				return isErrVal(v)
+			switch v.(type) {
+			case *ssa.Phi, *ssa.Call, *ssa.UnOp:
+				// the tested value must carry the Flush result on some path (i.e. it is the final error of the
+				// Send-then-Flush sequence), not just Send's result
+				if !isErrVal(v) {
+					return false
+				}
+				for _, src := range sources(v) {
+					for _, fl := range lp.flushes {
+						if src == fl.Value() {
+							return true
+						}
+					}
+				}
 			}
 			return false
 		})
@@ -1366,10 +1376,7 @@ func r17_2(c *Ctx) {
 		return
 	}
 	fn := lp.fn
-	putErr := func(v ssa.Value) bool {
-		e, ok := v.(*ssa.Extract)
-		return ok && e.Index == 1 && e.Tuple == ssa.Value(lp.tryPut)
-	}
+	putErr := extractOfCallPred(lp.tryPut, 1)
 	// reply sends: value is Put's error, guarded by err != nil
 	okSend := false
 	for _, s := range lp.replySends {
@@ -1388,13 +1395,9 @@ func r17_2(c *Ctx) {
 		return ok && ta.CommaOk && typeIs(ta.AssertedType, "sse", "replayPanic") && putErr(ta.X)
 	}
 	n := 0
-	for _, ifi := range ifsIn(fn) {
-		s, ok := boolEdge(ifi, isPanicOK)
-		if !ok || !guardedByNil(fn, ifi.Block(), putErr, false) {
-			continue
-		}
+	for _, g := range edgesWhereAll(fn, factNil(putErr, false), factBool(isPanicOK, false)) {
+		ifi := g.From.Instrs[len(g.From.Instrs)-1].(*ssa.If)
 		n++
-		g := cfgEdge{ifi.Block(), 1 - s}
 		miss := false
 		if lp.rng != nil {
 			miss = reachesAvoiding(atEdge(g.From, g.Idx), lp.rng, func(in ssa.Instruction) bool {
@@ -1535,10 +1538,7 @@ func r17_4(c *Ctx) {
 		return
 	}
 	fn := lp.fn
-	putErr := func(v ssa.Value) bool {
-		e, ok := v.(*ssa.Extract)
-		return ok && e.Index == 1 && e.Tuple == ssa.Value(lp.tryPut)
-	}
+	putErr := extractOfCallPred(lp.tryPut, 1)
 	isPanicOK := func(v ssa.Value) bool {
 		e, ok := v.(*ssa.Extract)
 		if !ok || e.Index != 1 {
@@ -1554,34 +1554,8 @@ func r17_4(c *Ctx) {
 	if len(lp.replySends) == 0 {
 		c.bad(fnLabel(fn)+":reply-send-not-panic", P.ipos(lp.tryPut), "no send on the reply channel")
 	}
-	// replay: panic marker leads to registration — covered by R04.3's split; restate the link here
-	if lp.tryReplay != nil && len(lp.inserts) == 1 {
-		errVals := func(v ssa.Value) bool {
-			for _, s := range sources(v) {
-				if s == ssa.Value(lp.tryReplay) {
-					return true
-				}
-			}
-			return false
-		}
-		isPanicR := func(v ssa.Value) bool {
-			e, ok := v.(*ssa.Extract)
-			if !ok || e.Index != 1 {
-				return false
-			}
-			ta, ok := e.Tuple.(*ssa.TypeAssert)
-			return ok && ta.CommaOk && typeIs(ta.AssertedType, "sse", "replayPanic") && errVals(ta.X)
-		}
-		good := false
-		for _, ifi := range ifsIn(fn) {
-			if s, ok := boolEdge(ifi, isPanicR); ok {
-				if !reachesAvoiding(atEdge(ifi.Block(), s), firstOf(fn, func(in ssa.Instruction) bool { _, ok := in.(*ssa.Select); return ok }), func(in ssa.Instruction) bool { return in == ssa.Instruction(lp.inserts[0]) }, nil) {
-					good = true
-				}
-			}
-		}
-		c.check(good, fnLabel(fn)+":replay-panic-registers", P.ipos(lp.tryReplay), "a replayer panic during Replay leads to registration, not to an error", "a replayer panic during Replay does not lead to the subscriber being registered")
-	}
+	// a panic marker from Replay leads to registration, not to an error: R04.3's `registers` obligation
+	// (every path that is not a genuine-error edge reaches the insert) decides it; C17 includes R04.3.
 }
 
 func firstOf(fn *ssa.Function, pred func(ssa.Instruction) bool) ssa.Instruction {
@@ -1654,4 +1628,30 @@ func r03_8(c *Ctx) {
 		}
 	}
 	c.check(offender == nil, name, posOfInstr(P, offender, fn), "the fan-out is left only when every registered subscriber was visited", "the range over the subscribers can be left early (return/break/goto at "+posOfInstr(P, offender, fn)+"): subscribers not yet visited never get a message whose Publish already returned")
+}
+
+// extractOfCallPred: predicate "v is (a copy of) result #idx of call": directly the Extract, or a
+// load of a local cell (e.g. a variable captured by a function literal) whose stores include it.
+func extractOfCallPred(call *ssa.Call, idx int) func(ssa.Value) bool {
+	return func(v ssa.Value) bool {
+		if call == nil || v == nil {
+			return false
+		}
+		hit := false
+		for _, s := range sources(v) {
+			e, ok := s.(*ssa.Extract)
+			if ok && e.Index == idx && e.Tuple == ssa.Value(call) {
+				hit = true
+				continue
+			}
+			if isNilConst(s) || isZeroConst(s) {
+				continue // zero initialisation of the variable
+			}
+			if u, isLoad := s.(*ssa.UnOp); isLoad && u == v {
+				continue
+			}
+			return false
+		}
+		return hit
+	}
 }
